@@ -32,7 +32,7 @@ func runC03(p *engine.Prog, r *engine.Report) {
 	r.Min("R3.1-place-or-account", 2)
 	r.Min("R3.2-direction", 1)
 	r.Min("R3.3-handover-exact", 1)
-	r.Min("R3.4-scale-up-amount", 1)
+	r.Min("R3.4-scale-up-amount", 2)
 
 	var assigner *ssa.Function
 	for _, mw := range c.mapWrites {
@@ -290,6 +290,82 @@ func runC03(p *engine.Prog, r *engine.Report) {
 			}
 			if !found {
 				probs = append(probs, "the result is not 'in-sync shards + amount'")
+			}
+			// whenever space is needed the scale-up function decides: between the point where the needed space is
+			// final and the call, the path depends on nothing but that space value
+			{
+				var probs2 []string
+				fi := p.Info(fn)
+				var spArg ssa.Value
+				for _, a := range call.Call.Args {
+					if n, ok := a.Type().(*types.Named); ok && n.Obj() == spaceT.Obj() {
+						spArg = a
+					}
+				}
+				var marks []string
+				var from *ssa.BasicBlock
+				if u, ok := spArg.(*ssa.UnOp); ok {
+					if al, ok := u.X.(*ssa.Alloc); ok {
+						marks = []string{"local:" + al.Name(), "mem:" + al.Name(), "cell:" + al.Name()}
+						var last ssa.Instruction
+						for _, rr := range *al.Referrers() {
+							switch rr.(type) {
+							case *ssa.Store, ssa.CallInstruction:
+							default:
+								continue
+							}
+							if rr == ssa.Instruction(call) || !engine.InstrDominates(rr, call) {
+								continue
+							}
+							// writers only
+							if ci, ok := rr.(ssa.CallInstruction); ok {
+								w := false
+								for i, a := range ci.Common().Args {
+									if a == ssa.Value(al) && writesThroughParam(ci.Common().StaticCallee(), i, 0) {
+										w = true
+									}
+								}
+								if !w {
+									continue
+								}
+							}
+							if last == nil || engine.InstrDominates(last, rr) {
+								last = rr
+							}
+						}
+						if last != nil {
+							from = last.Block()
+						}
+					}
+				} else if spArg != nil {
+					marks = []string{fi.T(spArg).S}
+					if in, ok := spArg.(ssa.Instruction); ok {
+						from = in.Block()
+					}
+				}
+				if from == nil || len(marks) == 0 {
+					probs2 = append(probs2, "the needed space handed to the scale-up function cannot be followed to where it is computed")
+				} else {
+					before := map[string]bool{}
+					for _, g := range fi.Guards(from) {
+						before[g] = true
+					}
+					for _, g := range fi.Guards(call.Block()) {
+						if before[g] || engine.IsStructuralLiteral(g) {
+							continue
+						}
+						about := false
+						for _, m := range marks {
+							if strings.Contains(g, m) {
+								about = true
+							}
+						}
+						if !about {
+							probs2 = append(probs2, "scale-up is additionally conditional on "+short(g)+": space can be needed without the requested count rising")
+						}
+					}
+				}
+				r.Check(len(probs2) == 0, "R3.4-scale-up-amount", "scale-up decided by the needed space alone in "+engine.FuncName(fn), "call at "+c.at(call), "between the final needed space and the scale-up call, no condition on anything else", strings.Join(probs2, "; "))
 			}
 			r.Check(len(probs) == 0, "R3.4-scale-up-amount", "amount in "+engine.FuncName(up), engine.FuncName(up)+" ("+p.Rel(up.Pos())+")", "requested = in-sync count + amount with amount ≥ 1 (quotients of non-negative needed space assumed ≥ 0)", strings.Join(probs, "; "))
 		}
